@@ -30,6 +30,9 @@ def case_text(c):
     L.append("rowind " + " ".join(map(str, c["rowind"])))
     L.append("vals " + " ".join(hexf(v) for v in c["vals"]))
     L.append("rhs " + " ".join(hexf(v) for v in c.get("rhs", [])))
+    if c.get("rhs2") is not None:
+        L.append("rhs2 " + " ".join(hexf(v) for v in c["rhs2"]))
+        L.append("trans2 %d" % c.get("trans2", 0))
     L.append("nprocs %d" % c.get("nprocs", 1))
     L.append("colperm %d" % c.get("colperm", 0))
     if c.get("permc") is not None:
